@@ -46,7 +46,13 @@ func C13(p *load.Prog, r *report.Report) {
 				if alias {
 					want = absint.TInt(1)
 				}
-				r.Check(ok && (got.Equal(want) || absint.TrichoNorm(got).Equal(absint.TrichoNorm(want))), "C13.lessorequal", name, p.Pos(fn.Pos()), "result = "+want.String(), fmt.Sprintf("result is %s; the integer semantics requires %s (an ordering of internal Montgomery representatives is not the ordering of the values)", absint.Show(res.Ret), want))
+				same := ok && (got.Equal(want) || absint.TrichoNorm(got).Equal(absint.TrichoNorm(want)))
+				if ok && !same && !alias {
+					// a limb-by-limb (lexicographic) comparison: both sides as Boolean functions of the limb comparisons
+					eq := absint.ISZ(s.Sub(t))
+					same = absint.SameLex(got, want, cs, ct, eq)
+				}
+				r.Check(same, "C13.lessorequal", name, p.Pos(fn.Pos()), "result = "+want.String(), fmt.Sprintf("result is %s; the integer semantics requires %s (an ordering of internal Montgomery representatives is not the ordering of the values)", absint.Show(res.Ret), want))
 				if ok {
 					r.Sample(map[string]interface{}{"case": name, "result": got.String()})
 				}
